@@ -1152,10 +1152,17 @@ func (fr *Frame) checkCallPre(st *State, fn *types.Func, recv *Term, args []*Ter
 				b[p] = &SVal{T: args[j], Ty: sig.Params().At(j).Type()}
 			}
 		}
-		g := fr.top.evalSpecBool(st, c.Expr, b, fr.top.entry)
 		name := c.Name
 		if name == "" {
 			name = fmt.Sprintf("%d", i+1)
+		}
+		g, why := fr.top.trySpecBoolB(st, c, b)
+		if g == nil {
+			// the clause names something the function no longer has: the obligation cannot be established any more
+			// (it is reported as failed, with the reason, rather than stopping the whole function)
+			fr.e.note("stale-clause: %s callpre %s#%s `%s` cannot be evaluated (%s)", shortKey(fr.top.fn.Key), fn.Name(), name, c.Text, why)
+			fr.e.oblige(fr, st, "callpre:"+fn.Name()+"#"+name, "", fr.site("callpre", call), False, call, c, "clause no longer resolves: "+why)
+			continue
 		}
 		fr.e.oblige(fr, st, "callpre:"+fn.Name()+"#"+name, "", fr.site("callpre", call), g, call, c, "")
 		// checked, then available to what follows (also lets a call-site clause serve as a proof hint)
